@@ -152,6 +152,7 @@ PLAN['C20'] = {
     'legs': [leg_kani('leaf'), leg_verus('simplify'), leg_verus('vm'), leg_bounded('interp_point'), leg_bounded('trace_vm'), leg_bounded('jit_trace'),
              leg_bounded('interp_bulk'), leg_bounded('jit_bulk'), leg_bounded('reuse')],
     'explanation': 'Per-clause meaning is a complete proof over all 2^64 operand pairs (Kani); the tape-level statements for the VM evaluators are Verus postconditions of the real eval functions (unit vm); JIT tape-level statements are enumerated by the bounded runner.',
+    'cex': ['simplify_sem'],
     'assumptions': ['JIT tape-level clauses are bounded stand-ins (jit_trace, jit_bulk)', 'tape_ok(tape): the number of choice clauses of the register tape is at most choice_count (assumed from SsaTape::new/RegTape::new; simplify proves choice_count == number of choice clauses of its SSA result)'],
 }
 del NOT_APPLICABLE['C20']
@@ -215,12 +216,27 @@ PLAN['C10'] = {
 }
 del NOT_APPLICABLE['C10']
 
+PLAN['C19'] = {
+    'level': 'other',
+    'technique': 'contract-based deductive verification (Verus) of the two evaluation passes of the solver workspace, Solver::get_jacobian and Solver::get_err of fidget-solver/src/lib.rs, on their real text (std HashMap through the model of vstd, nalgebra matrix/vector as stand-in types); bounded native contract runner for solve as a whole',
+    'level_text': 'Partial (the clauses about fixed parameters and about the three-per-sample packing; convergence is bounded only). Proved for every function type F, every set of equations whose tapes have well-formed variable maps, every parameter map and every current point: (1) Solver::get_jacobian calls the gradient evaluator, for every equation t, on an argument matrix whose row for a Fixed parameter holds (its given value, 0, 0, 0) in every sample and whose row for the Free parameter numbered gi holds, in sample j, (cur[gi], [3j == gi], [3j+1 == gi], [3j+2 == gi]): sample j, lane l differentiates with respect to the free parameter numbered 3j+l and no other, for any number of free parameters (not only multiples of three); rows are addressed through the variable map of equation t itself, although one matrix is shared by all equations; jacobian[(t, gi)] is lane gi % 3 of sample gi / 3 of the first output, result[t] is the value lane of sample 0; (2) Solver::get_err calls the point evaluator on an argument vector that binds every parameter by identity (the given value of a Fixed one, cur[gi] - delta[gi] of a Free one) and returns the sum of the squared first outputs; (3) neither function can panic (every unwrap, every index into the shared arrays, into cur/delta, into the output, Matrix::get_mut, the panic arm of Grad::d, the overflow of j*3+2) - under the preconditions that Solver::new establishes (not under contract: iterator chains) and that there is at least one free parameter.  That last precondition is not met by solve when every parameter is fixed: see the findings.  NOT covered by proof: Solver::new, the Levenberg-Marquardt loop of solve (nalgebra SVD, damping schedule, exit criteria), hence "exactly the free parameters are returned", "an exactly satisfied start is returned unchanged" and "well-conditioned consistent linear systems are solved" are bounded only (contracts solver_linear: diagonally dominant systems with 1..=14 (40) variables, a random third fixed, sparse equations in random term order, both back ends; solver_bind: triangular systems).',
+    'level_note': 'Level other: the per-evaluation binding and packing are proved on the real text; whole-solver behaviour is numeric convergence, which no contract within reach decides (bounded stand-in, labelled). Trusted: Verus+Z3; vstd model of std HashMap with obeys_key_model::<Var>() assumed (derived Hash/Eq of Var consistent); stand-ins DMatrix/DVector for nalgebra (get_mut returns the element iff in range; Index/IndexMut), VarMap::get stub, <[T]>::fill spec, trait Function reduced to two associated types, contracts of TracingEvaluator::eval and BulkEvaluator::eval (proved for the VM evaluators in unit vm, bounded for the JIT); rewrites R-enumerate, R-intoiter, R-continue, R-hashindex, R-itermut, R-compound (each a documented std equivalence).',
+    'legs': [leg_verus('solver'), leg_bounded('solver_linear'), leg_bounded('solver_bind')],
+    'cex': ['solver_linear', 'solver_bind'],
+    'explanation': 'gbound(m, map, vars, gi, cur): for every entry (var, idx) of the tape\'s map with var a parameter, row idx of m holds gval(parameter, j) in every sample j; the loop over the parameter HashMap carries it for the parameters visited so far (distinct keys -> distinct entries -> distinct rows, so later writes keep earlier rows); the read-out loop carries jacobian.at(t, g) for g < gi.',
+    'assumptions': ['what Solver::new establishes: every tape\'s variable map is well-formed and fits the shared arrays; rows of input_grad have one common length n >= 1 with 3n >= number of free parameters; grad_index numbers the free parameters below cur.len()',
+                    'jacobian/result sizes as documented ("Panics if jacobian or result are an invalid size")',
+                    'the Levenberg-Marquardt iteration itself is only exercised (solver_linear, solver_bind)'],
+}
+del NOT_APPLICABLE['C19']
+
 PLAN['C15'] = {
     'level': 'exploration',
     'technique': 'bounded native contract runner with an independent decoder/interpreter written from the bytecode module documentation; register/memory operand bounds of every emitted RegOp proved in Verus (allocator invariant I6)',
     'level_text': 'Bounded stand-in for Bytecode::new (a loop with a closure capturing two &mut locals and a HashMap: outside Verus; Kani runs out of memory): every opcode form x registers {0,1,N-1} x memory slots x immediates, 1- and 2-op tapes, plus seeded compiled expressions with budgets 3/4/12; markers, opcode table, operand layout, 0xFF immediate flag, counts bounding every index, decoded program == interpreter bitwise. Proved (Verus, C01 unit): every register operand < N <= 255 and every memory operand in N..slot_count, so the reserved register never appears for N <= 255 and slot arithmetic cannot underflow.',
     'level_note': 'The deciding function Bytecode::new is only explored, hence level exploration. Trusted: the decoder\'s reading of the documented format.',
     'legs': [leg_bounded('bytecode'), leg_verus('alloc')],
+    'cex': ['alloc_cex'],
     'explanation': 'exploration with a proved side condition (operand ranges)',
     'assumptions': ['Input/Output operand layout is the decoder\'s reading of the docs'],
 }
